@@ -58,13 +58,18 @@ Definition ftable (fd : Z * list Z) (l : list Z) : Z :=
 (* ------------------------------------------------------------------ API level *)
 Inductive jarg :=
 | JSp (fm : afmt) (c : coo Z)        (* a sparse operand (any format) given by its canonical COO form *)
-| JDn (d : dense Z).                (* ndarray, 0-d array or scalar *)
+| JDn (d : dense Z)                 (* ndarray (0-d included) *)
+| JSc (z : Z).                      (* Python / NumPy scalar (not an ndarray) *)
 
-Definition jfmt (a : jarg) : afmt := match a with JSp fm _ => fm | JDn _ => AOther end.
-Definition joperand (a : jarg) : operand Z := match a with JSp _ c => OSp c | JDn d => ODn d end.
-Definition jdense (a : jarg) : dense Z := match a with JSp _ c => todense c | JDn d => d end.
+Definition jfmt (a : jarg) : afmt := match a with JSp fm _ => fm | _ => AOther end.
+Definition joperand (a : jarg) : operand Z :=
+  match a with JSp _ c => OSp c | JDn d => ODn d | JSc z => ODn (mkDense [] [z]) end.
+Definition jscal (args : list jarg) : nat -> bool :=
+  fun i => match nth_error args i with Some (JSc _) => true | _ => false end.
+Definition jdense (a : jarg) : dense Z :=
+  match a with JSp _ c => todense c | JDn d => d | JSc z => mkDense [] [z] end.
 Definition jfill (a : jarg) (q : idx) : Z :=
-  match a with JSp _ c => c_fill c | JDn d => dense_get 0 d (bcast_idx (d_shape d) q) end.
+  match a with JSp _ c => c_fill c | JDn d => dense_get 0 d (bcast_idx (d_shape d) q) | JSc z => z end.
 
 (* (function, goes through _Elemwise?, operands, what the implementation returned); COO/GCXS.isnan and
    .isinf do not go through _Elemwise (they keep the operand's own format even for zero extents) *)
@@ -121,14 +126,14 @@ Definition spec_value_ok (fd : Z * list Z) (args : list jarg) (sh : shape) (out 
 Definition scalars_only (args : list jarg) : bool :=
   forallb (fun a => match a with JDn d => match d_shape d with [] => true | _ => false end | _ => true end) args.
 Definition property_fill (fd : Z * list Z) (args : list jarg) : Z :=
-  ftable fd (map (fun a => match a with JSp _ c => c_fill c | JDn d => hd 0 (d_flat d) end) args).
+  ftable fd (map (fun a => match a with JSp _ c => c_fill c | JDn d => hd 0 (d_flat d) | JSc z => z end) args).
 
 Definition judge_api (c : api_case) : Z :=
   let '(fd, via, args, out) := c in
   match out_format (map jfmt args) with
   | None => match out with SExc ValueError => 0 | _ => 1 end
   | Some ofm =>
-    match elemwise Z Z.eqb 0 (ftable fd) argsort (map joperand args) with
+    match elemwise_sc Z Z.eqb 0 (ftable fd) (jscal args) argsort (map joperand args) with
     | OutErr e => match out with SExc e' => if exc_eqb e e' then 0 else 2 | _ => 2 end
     | OutDense d =>
       match out with
